@@ -310,6 +310,11 @@ func (h *handler) processUnaryRpc(
 	}
 	defer cancel()
 
+	// A unary handler must not outlive its connection: when the connection's
+	// context ends (read or write failure, Stop), so does the handler's.
+	stop := context.AfterFunc(h.ctx, cancel)
+	defer stop()
+
 	var appErr error
 	fullMethod := fmt.Sprintf("/%s/%s", info.name, md.MethodName)
 
